@@ -50,19 +50,19 @@ pub fn e1_slice<T: Zed, const TRY: bool>() {
         kani::assume(sz > 0 && len > 256 / sz);
         let f = |_i: usize| -> T {
             INIT_RAN = true;
-            assert!(false, "[C19,C09] initialiser run for a slice whose size cannot have been reserved");
+            vassert!(false, "NEVER: [C19,C09] initialiser run for a slice whose size cannot have been reserved");
             kani::assume(false);
             T::zed()
         };
         if TRY {
             let r = bump.try_alloc_slice_fill_with(len, f);
-            assert!(r.is_err(), "[C19,C09] try_alloc_slice_fill_with returned a slice larger than anything the arena holds");
-            assert!(c.cur_ptr() == c.ptr0, "[C09] finger moved by a failed slice request");
+            vassert!(r.is_err(), "NEVER: [C19,C09] try_alloc_slice_fill_with returned a slice larger than anything the arena holds");
+            vassert!(c.cur_ptr() == c.ptr0, "NEVER: [C09] finger moved by a failed slice request");
             let w: u8 = kani::any();
             if w == 1 {
-                assert!(bump.try_alloc_slice_fill_copy(len, T::zed()).is_err(), "[C19] try_alloc_slice_fill_copy accepted an impossible length");
+                vassert!(bump.try_alloc_slice_fill_copy(len, T::zed()).is_err(), "NEVER: [C19] try_alloc_slice_fill_copy accepted an impossible length");
             } else if w == 2 {
-                assert!(bump.try_alloc_slice_fill_clone(len, &T::zed()).is_err(), "[C19] try_alloc_slice_fill_clone accepted an impossible length");
+                vassert!(bump.try_alloc_slice_fill_clone(len, &T::zed()).is_err(), "NEVER: [C19] try_alloc_slice_fill_clone accepted an impossible length");
             }
             kani::cover!(len > usize::MAX / 2, "REACH: count whose byte size overflows");
             kani::cover!(len == 256 / sz + 1, "REACH: count just above what exists");
@@ -107,22 +107,23 @@ pub fn e1_vec<T: Zed, const OP: u8>() {
             3 => {
                 let mut v: BVec<T> = BVec::new_in(b);
                 let r = v.try_reserve(n);
-                assert!(r.is_err(), "[C19] Vec::try_reserve accepted a capacity that cannot be satisfied");
-                assert!(v.capacity() * sz <= 256, "[C19] Vec capacity claims more memory than was reserved");
+                vassert!(r.is_err(), "NEVER: [C19] Vec::try_reserve accepted a capacity that cannot be satisfied");
+                vassert!(v.capacity() * sz <= 256, "NEVER: [C19] Vec capacity claims more memory than was reserved");
                 let r2 = v.try_reserve_exact(n);
-                assert!(r2.is_err(), "[C19] Vec::try_reserve_exact accepted a capacity that cannot be satisfied");
-                kani::cover!(n > usize::MAX / 2, "REACH: capacity whose byte size overflows");
+                vassert!(r2.is_err(), "NEVER: [C19] Vec::try_reserve_exact accepted a capacity that cannot be satisfied");
+                kani::cover!(n > usize::MAX / 2, "INFO: capacity whose byte size overflows");
             }
             _ => {
                 // reserve on a vector that already holds something: used + additional overflow
                 let mut v: BVec<T> = BVec::with_capacity_in(2, b);
                 v.push(T::zed());
                 let r = v.try_reserve(n);
-                assert!(r.is_err(), "[C19] Vec::try_reserve accepted used+additional that cannot be satisfied");
-                assert!(v.capacity() * sz <= 256 && v.len() == 1, "[C19] Vec capacity claims more memory than was reserved");
-                kani::cover!(n == usize::MAX, "REACH: used + additional overflows");
+                vassert!(r.is_err(), "NEVER: [C19] Vec::try_reserve accepted used+additional that cannot be satisfied");
+                vassert!(v.capacity() * sz <= 256 && v.len() == 1, "NEVER: [C19] Vec capacity claims more memory than was reserved");
+                kani::cover!(n == usize::MAX, "INFO: used + additional overflows");
             }
         }
+        kani::cover!(OP >= 3, "REACH: fallible reservation refused, harness end reached");
     }
 }
 
@@ -156,6 +157,8 @@ macro_rules! e1 {
         #[kani::unwind(8)]
         #[kani::stub(crate::core_alloc::alloc::alloc, alloc_null)]
         #[kani::stub(crate::core_alloc::alloc::dealloc, dealloc_count)]
+        #[kani::stub(core::ptr::copy_nonoverlapping, cno_range_only)]
+        #[kani::stub(core::ptr::copy, copy_range_only)]
         pub fn $name() {
             $body
         }
@@ -191,3 +194,42 @@ e1!(e1_vec_try_reserve_used_u64, e1_vec::<u64, 4>());
 e1!(e1_string_with_capacity, e1_string::<0>());
 #[cfg(feature = "collections")]
 e1!(e1_string_reserve, e1_string::<1>());
+
+/// used + additional overflows usize: refused before any memory is touched (cheap path).
+#[cfg(feature = "collections")]
+pub fn e1_vec_used_overflow<const TRY: bool>() {
+    use crate::collections::Vec as BVec;
+    let mut back = Backing::<304>([0u8; 304]);
+    unsafe {
+        let c = small_chunk::<1>(back.0.as_mut_ptr(), 256, 256);
+        let bump = mk_bump::<1>(c.footer, None);
+        let b: &Bump = &bump;
+        let mut v: BVec<u32> = BVec::with_capacity_in(4, b);
+        let len: usize = 1; // concrete: a symbolic length costs 5 min and adds nothing to the size arithmetic
+        let mut k = 0;
+        while k < len {
+            v.push(k as u32);
+            k += 1;
+        }
+        let n: usize = kani::any();
+        kani::assume(n > usize::MAX - len);
+        if TRY {
+            let exact: bool = kani::any();
+            let r = if exact { v.try_reserve_exact(n) } else { v.try_reserve(n) };
+            vassert!(r.is_err(), "NEVER: [C19] Vec::try_reserve(_exact) accepted len + additional > usize::MAX");
+            vassert!(v.capacity() == 4 && v.len() == len, "NEVER: [C19] refused reservation changed the vector");
+            kani::cover!(n == usize::MAX, "REACH: additional == usize::MAX");
+        } else {
+            let exact: bool = kani::any();
+            if exact {
+                v.reserve_exact(n);
+            } else {
+                v.reserve(n);
+            }
+            kani::cover!(true, "NEVER: [C19] Vec::reserve(_exact) returned although len + additional > usize::MAX");
+            core::mem::forget(v);
+        }
+    }
+}
+#[cfg(feature = "collections")]
+e1!(e1_vec_used_overflow_inf, e1_vec_used_overflow::<false>());
